@@ -38,12 +38,13 @@ def run(ctx):
     base_date = 1517418800
     cases = []   # (exchange, signer params dict, times)
 
-    def case(ver, method=b'GET', rq=None, rs=None, status=200, uri=b'https://example.com/', vurl=b'https://example.com/v', life=3600, times=None, rs_ct=True):
+    def case(ver, method=b'GET', rq=None, rs=None, status=200, uri=b'https://example.com/', vurl=b'https://example.com/v', life=3600, times=None, rs_ct=True, date=None, zones=None):
         rq = list(rq or [])
         rs = list(rs or [])
         if rs_ct: add(rs, b'content-type', b'text/html')
         e = ex(ver, uri, method, rq if ver != 'b3' else rq, status, rs, b'', b'payload-bytes')
-        cases.append((e, dict(vurl=vurl, date=base_date, expires=base_date + life), times or [(base_date + 10, 0)]))
+        d0 = base_date if date is None else date
+        cases.append((e, dict(vurl=vurl, date=d0, expires=d0 + life, zones=zones), times or [(d0 + 10, 0)]))
 
     for ver in VERS:
         # time window
@@ -70,6 +71,19 @@ def run(ctx):
         # non-canonical (hand-made map) names too: the lookup lower-cases whatever is stored
         for name in (b'SET-COOKIE', b'set-cookie', b'Set-cookie', b'COOKIE'):
             case(ver, rs=[(name, [b'v'])]); case(ver, rq=[(name, [b'v'])])
+        # exactly one letter upper-cased, at every position, and all letters but one upper-cased (a case-folding fast path that gets one
+        # letter or one boundary of its range wrong shows only for such spellings); stored as spelled (hand-made map)
+        for name in STATEFUL + UNCACHED:
+            spell = []
+            for i, ch in enumerate(name):
+                if 97 <= ch <= 122:
+                    spell.append(name[:i] + bytes([ch - 32]) + name[i + 1:])
+                    spell.append(name.upper()[:i] + bytes([ch]) + name.upper()[i + 1:])
+            for j, nm in enumerate(spell):
+                if (j + len(name)) % 3 != VERS.index(ver): continue          # each spelling under one version, in turn
+                if name in STATEFUL and ver != 'b3': case(ver, rq=[(nm, [b'v'])])
+                elif name in STATEFUL: case('b1', rq=[(nm, [b'v'])])
+                if name in UNCACHED: case(ver, rs=[(nm, [b'v'])])
         # validity-url origin variants
         for vu in (b'https://example.com/v', b'https://example.com:443/v', b'https://EXAMPLE.com/v', b'http://example.com/v', b'https://example.com:8443/v', b'https://example.com.:443/v',
                    b'https://www.example.com/v', b'https://example.org/v', b'HTTPS://example.com/v', b'https://user@example.com/v', b'/v', b'https://example.com', b'https://[::1]/v', b'%zz'):
@@ -83,6 +97,12 @@ def run(ctx):
                 case(ver, uri=b'https://' + h + pu + b'/', vurl=b'https://' + h + pv + b'/r.validity')
         case(ver, uri=b'https://[2001:db8::1]/', vurl=b'https://[2001:db8::2]/v')
         case(ver, uri=b'https://[2001:db8::1]/', vurl=b'https://2001:db8::1/v')
+        # windows that contain a daylight-saving change of some zone, lifetimes around 7 days (168 h of elapsed time, whatever the calendar
+        # says), verified with the process's local zone set to zones that do / do not change in that week
+        ZONES = ['America/New_York', 'Europe/Berlin', 'Australia/Sydney', 'Asia/Tokyo', 'UTC']
+        for d0 in (1520251200, 1521892800, 1522324800, 1540641600, 1541073600):      # 2018-03-05, 03-24, 03-29, 10-27, 11-01 (12:00Z)
+            for life in (604800, 604801, 601201, 601200, 608400, 608401):             # 168 h (+1 s), 167 h (+1 s), 169 h (+1 s)
+                case(ver, date=d0, life=life, times=[(d0, 0), (d0 + life // 2, 0), (d0 + min(life, 604800), 0)], zones=ZONES)
         # Content-Type
         case(ver, rs_ct=False)
         case(ver, rs=[(b'Content-Type', [b''])], rs_ct=False)
@@ -90,7 +110,7 @@ def run(ctx):
     # b3 cacheability grid
     DIRS = [b'no-store', b'private', b'public', b'max-age=60', b's-maxage=5', b'no-cache', b'junk', b'No-Store', b' private ', b'max-age', b'x=no-store', b'"no-store"', b'PUBLIC',
             # quoted-string arguments: with commas, escaped quotes (odd / even), unterminated -- the implementation splits at every comma
-            b'ext="a\\"b"', b'ext="a\\"b\\"c"', b'ext="a,no-store"', b'ext="a, private ,b"', b'ext="x', b'no-cache="set-cookie,x"', b'ext="\\\\"', b'private="a"', b'max-age="60"']
+            b'max-age="', b'ext=","', b'"', b'=', b'a="', b'max-age=""', b'no-store="', b's-maxage="', b'private="', b'public="', b'ext="a\\"b"', b'ext="a\\"b\\"c"', b'ext="a,no-store"', b'ext="a, private ,b"', b'ext="x', b'no-cache="set-cookie,x"', b'ext="\\\\"', b'private="a"', b'max-age="60"']
     statuses = list(range(100, 600)) if thorough else [100, 199, 200, 201, 203, 204, 206, 226, 300, 301, 302, 304, 307, 308, 400, 404, 405, 410, 414, 418, 451, 500, 501, 511, 599, 306, 209]
     for st in statuses:
         case('b3', status=st)
@@ -120,6 +140,7 @@ def run(ctx):
         meta.append((k, times))
     res = ctx.go(ops)
     items = []
+    tzmap = {}
     unsigned = 0
     for r, (k, times), (e, sp, _) in zip(res, meta, cases):
         se = parse_ex(r) if r else None
@@ -127,6 +148,7 @@ def run(ctx):
             unsigned += 1
             continue
         for t in times:
+            if sp.get('zones'): tzmap[len(items)] = sp['zones']
             items.append((se, t, {certurl: k['chain']}))
     # several members in the Signature header: "run the algorithm for each signature, stopping at the first valid one" -- a member that is
     # incomplete, unparsable as a signature, or complete but wrong must not stop the valid one from being tried, whichever comes first
@@ -143,7 +165,7 @@ def run(ctx):
             for hdr in (dcy + b', ' + good, good + b', ' + dcy, dcy, dcy + b', ' + dcy + b', ' + good):
                 items.append((se[:6] + [hexs(hdr)] + se[7:], (base_date + 10, 0), {certurl: k['chain']}))
     ctx.stats = dict(cases=len(cases), not_signable=unsigned)
-    verify_stage(ctx, items)
+    verify_stage(ctx, items, tz=tzmap)
     # IsCacheable directly + Go time arithmetic
     ops = []
     st = status_table(ctx)
